@@ -121,6 +121,30 @@ CLAIMS['C12'] = dict(engine='rtc (E3)', category='exploration',
     text='Bounded: positive mode rates that are eigenvalues of the symmetrised rate matrix, compliance symmetries, positive semidefiniteness, sum rule to 1e-9, on every catalogue crystal with seeded data and non-symmetric dipoles.',
     note='eigh completeness makes the sum rule algebraic; outside SMT/CAS reach.')
 
+CLAIMS['C13'] = dict(engine='rtc (E3)', category='exploration',
+    technique='run-time round-trip postconditions (exact equality) on addhdf5/loadhdf5 and the YAML representers/constructors through real in-memory HDF5 files and PyYAML; bounded stand-in',
+    text='Bounded: reloaded vacancy-mediated calculators (saved before / after cache population, and re-saved) give bit-identical Lij, caches and tags; star sets, vector star sets, '
+         'GF calculators and Taylor expansions round-trip through HDF5; crystals, group operations, pair states, cluster sites and all four kinds of clusters round-trip through YAML with equal hashes.',
+    note='Catalogue crystals only; h5py and PyYAML trusted.')
+
+CLAIMS['C14'] = dict(engine='rtc (E3)', category='exploration',
+    technique='run-time history contracts on VacancyMediated.Lij: the result after any call/cache/regeneration history equals the result of a freshly built calculator; bounded stand-in',
+    text='Bounded: Lij is a function of its arguments alone over seeded histories (repeated calls, interleaved data sets, cache hits, regeneration to another range, saved-and-reloaded calculators), '
+         'and inputs and cached arrays are not modified.',
+    note='Catalogue crystals, seeded histories of bounded length.')
+
+CLAIMS['C15'] = dict(engine='rtc (E3)', category='exploration',
+    technique='run-time postconditions of generatetags / tags2preene / makeLIMBpreene: tag uniqueness, total coverage and LIMB back-fill identity against brute-force enumeration; bounded stand-in',
+    text='Bounded: every symmetry-unique state and jump has exactly one tag, tags are distinct across classes, every class is covered, and data omitted from a tag dictionary is back-filled by the '
+         'documented non-interacting / LIMB defaults.',
+    note='Catalogue crystals, Nthermo 1..2.')
+
+CLAIMS['C27'] = dict(engine='rtc (E3)', category='exploration',
+    technique='run-time postconditions of Supercell construction and index/position maps against brute-force enumeration of the cell contents; bounded stand-in',
+    text='Bounded: size = |det| x sites, every lattice site maps to exactly one index and back, translations are a group of permutations, group operations map to site permutations, '
+         'including left-handed and non-diagonal supercell matrices and in-place edit histories.',
+    note='Catalogue crystals x seeded supercell matrices.')
+
 NOT_APPLICABLE = {
     'C01': 'no contract within reach: the postcondition "equals the infinite-dilution limit of the exact Markov chain, to integration accuracy" needs an independent infinite-lattice solver as oracle (differential testing, a different technique) and no SMT/CAS obligation expresses a quadrature error; the discrete mechanisms it rests on are claimed in C24-C26, its invariances in C04, its sum rules in C06',
     'C05': 'a 2-safety statement about the Loewner order of two outputs (Rayleigh monotonicity): a variational theorem of detailed balance, not an invariant of any loop or a postcondition of one call; its only executable form is a numeric comparison of two runs (testing, not contract checking)',
